@@ -50,10 +50,26 @@ fn setup(h: &mut H) -> (Keys, Value, Vec<Issue>, Vec<Pok>) {
         let msgs = attrs(h, n);
         if !u.is_empty() {
             if let Some(i) = holder(h, &k, n, &u, None, msgs.clone()) {
+                let bt = boundary_tape(&i.zk_tape, false);
+                let (zb, tb) = crate::ops::call(
+                    h,
+                    "cl.zkgen",
+                    vec![ivs(&i.msgs), i.c.clone(), Value::Null, k.pk.clone(), ivs(&k.bases[..n]), Value::Null, uv(&u)],
+                    bt,
+                );
+                if let Some(zb) = zb.ok().cloned() {
+                    issues.push(Issue { msgs: i.msgs.clone(), hidden: i.hidden.clone(), revealed_idx: i.revealed_idx.clone(), c: i.c.clone(), ct: None, cpk: None, zk: zb, zk_tape: tb });
+                }
                 issues.push(i);
             }
         }
         if let Some(pk) = make_pok(h, &k, &ck, n, &u, msgs) {
+            // the same proof with every blinding at the MINIMUM of its contract (worst case for masking)
+            let bt = boundary_tape(&pk.tape, false);
+            let (pb, tb) = crate::ops::call(h, "cl.pokgen", vec![pk.sig.clone(), ck.clone(), k.pk.clone(), ivs(&k.bases[..n]), ivs(&pk.msgs), uv(&u)], bt);
+            if let Some(pb) = pb.ok().cloned() {
+                poks.push(Pok { msgs: pk.msgs.clone(), hidden: pk.hidden.clone(), revealed: pk.revealed.clone(), sig: pk.sig.clone(), pok: pb, tape: tb });
+            }
             poks.push(pk);
         }
     }
